@@ -3,6 +3,8 @@ import VlsModel.Gen.FnKvv
 import VlsModel.Gen.FnCloud
 import VlsModel.Gen.FnRedbVv
 import VlsModel.Gen.FnRedbKv
+import VlsModel.Gen.FnKvvMemNew
+import VlsModel.Gen.FnRedbSid
 import VlsModel.Props.C16Gen
 import VlsModel.Gen.FnKvvMem
 import VlsModel.Gen.FnKvvTrait
@@ -1083,5 +1085,20 @@ example : Gen.FnRedbKv.RedbKVVStore.put_with_version (Database := KvTbl) Rs.smap
 example : Gen.FnRedbKv.RedbKVVStore.get (Database := KvTbl) Rs.smapGet ⟨[("a", [0, 0, 0, 0, 0, 0, 1, 2, 9, 8])], []⟩ "a"
     = .ok (some (258, [9, 8])) := by
   rw [C16_fn_redbkv_get]; simp [Rs.smapGet, Rs.fromBeBytes]
+
+/-! ### Round 10 (b7): constructors / identity accessors (`Gen/FnKvvMemNew.lean`, `Gen/FnRedbSid.lean`)
+
+A fresh memory store is empty — every key reads `None` (`get` of the same unit), there is no version floor — and
+keeps the signer id it was given; `signer_id()` of both stores is the stored field. -/
+theorem C16_fn_mem_new {I : Type} (sid : I) :
+    Gen.FnKvvMemNew.MemoryKVVStore.new sid = { data := [], signer_id := sid } := rfl
+theorem C16_fn_mem_new_empty {I : Type} (sid : I) (k : String) :
+    Rs.smapGet (Gen.FnKvvMemNew.MemoryKVVStore.new sid).data k = none := rfl
+theorem C16_fn_mem_signer_id {I : Type} (s : Gen.FnKvvMemNew.MemoryKVVStore I) :
+    s.signer_id_fn = s.signer_id := rfl
+theorem C16_fn_mem_new_signer_id {I : Type} (sid : I) :
+    (Gen.FnKvvMemNew.MemoryKVVStore.new sid).signer_id_fn = sid := rfl
+theorem C16_fn_redb_signer_id {I : Type} (s : Gen.FnRedbSid.RedbKVVStore I) :
+    s.signer_id_fn = s.signer_id := rfl
 
 end VlsModel.Props.C16Fn
